@@ -47,14 +47,14 @@ const (
 
 // Thread is one scheduled goroutine.
 type Thread struct {
-	ID     int
-	Name   string
-	s      *Sched
-	goid   int64
-	resume chan struct{}
-	freed  bool
+	ID      int
+	Name    string
+	s       *Sched
+	goid    int64
+	resume  chan struct{}
+	freed   bool
 	adopted bool
-	status int
+	status  int
 	// LastStop is the kind/point of the stop the thread is parked at.
 	LastKind, LastPoint string
 	// Left is maintained by the body: calls still to make (0 = program over).
@@ -75,8 +75,6 @@ type Sched struct {
 	// the identity the goroutine gets, or ok=false to leave it unscheduled.
 	Adopt func(point string) (id int, name string, ok bool)
 }
-
-var debugStates func(g int64, st string)
 
 func (s *Sched) threads() []*Thread {
 	s.mu.Lock()
@@ -381,8 +379,6 @@ func (s *Sched) Step(t *Thread) []Event {
 				}
 				if transient(st) {
 					quiet = false
-				} else if debugStates != nil {
-					debugStates(g, st)
 				}
 			}
 			s.mu.Unlock()
